@@ -75,7 +75,16 @@ def run(chk):
                   quick_cases=60, thorough_cases=800, sched_kwargs={'sim_cls_name': 'TimedSim'}, extra_judge=extra)
     chk.assumptions += ['real clocks and TCP time-outs are outside the model: an XML-RPC failure is an input (cut / crash)',
                         '"at once if an XML-RPC fails" is read as: when the failure notification is handled by the instance']
+    # closed loop (harness/c16free.py): a peer seen RUNNING 12 ticks into the quiet phase (no fault, no cut) is still seen RUNNING at its end
+    import c16free
+    c16free.liveness_stage(chk, 'C07:free:', [{}], 200, 4000)
 
 
 def replay(chk, path):
-    replay_schedule(chk, path, ['C07-', 'C13-left-isolated'])
+    import json
+    c = json.load(open(path)); r = c.get('replay', c)
+    if r.get('stage') == 'free':
+        import c16free
+        c16free.liveness_replay(chk, r, 'C07:free:')
+    else:
+        replay_schedule(chk, path, ['C07-', 'C13-left-isolated'])
